@@ -266,7 +266,7 @@ int parse_instruction_8008(AsmContext *asm_context, char *instr)
           if (operand_count != 1) { continue; }
           if (operands[0].type == OPERAND_NUMBER)
           {
-            if (check_range(asm_context, "immediate", operands[0].value, -32768, 0xffff) == -1) { return -1; }
+            if (check_range(asm_context, "immediate", operands[0].value, -128, 0xff) == -1) { return -1; }
             add_bin8(asm_context, table_8008[n].opcode, IS_OPCODE);
             add_bin8(asm_context, operands[0].value, IS_OPCODE);
             return 2;
@@ -280,7 +280,7 @@ int parse_instruction_8008(AsmContext *asm_context, char *instr)
           if (operands[0].type == OPERAND_M &&
               operands[1].type == OPERAND_NUMBER)
           {
-            if (check_range(asm_context, "immediate", operands[1].value, -32768, 0xffff) == -1) { return -1; }
+            if (check_range(asm_context, "immediate", operands[1].value, -128, 0xff) == -1) { return -1; }
             add_bin8(asm_context, table_8008[n].opcode, IS_OPCODE);
             add_bin8(asm_context, operands[1].value, IS_OPCODE);
             return 2;
@@ -294,7 +294,7 @@ int parse_instruction_8008(AsmContext *asm_context, char *instr)
           if (operands[0].type == OPERAND_REG &&
               operands[1].type == OPERAND_NUMBER)
           {
-            if (check_range(asm_context, "immediate", operands[1].value, -32768, 0xffff) == -1) { return -1; }
+            if (check_range(asm_context, "immediate", operands[1].value, -128, 0xff) == -1) { return -1; }
             opcode = table_8008[n].opcode | (operands[0].value << 3);
             add_bin8(asm_context, opcode, IS_OPCODE);
             add_bin8(asm_context, operands[1].value, IS_OPCODE);
